@@ -47,6 +47,56 @@ def array_models():
     return {XLT + 'Array': make}
 
 
+class _Series(PyModel):
+    def __init__(self, interp, items):
+        self.interp, self.items = interp, items
+
+    def sum(self):
+        import ast as _ast
+        total = 0
+        for x in self.items:
+            total = self.interp._binop(_ast.Add(), total, x)
+        return total
+
+
+class _Frame(PyModel):
+    """pandas.concat(arrays, axis=1) of range arrays: rows side by side; prod(axis=1) multiplies along each row."""
+
+    def __init__(self, interp, rows):
+        self.interp, self.rows = interp, rows
+
+    def prod(self, axis=0):
+        import ast as _ast
+        if axis != 1:
+            raise Unmodelled('DataFrame.prod along columns')
+        out = []
+        for r in self.rows:
+            p = 1
+            for x in r:
+                p = self.interp._binop(_ast.Mult(), p, x)
+            out.append(p)
+        return _Series(self.interp, out)
+
+
+def pandas_models():
+    def concat(interp, arrays, axis=0, **kw):
+        if axis != 1 or kw:
+            raise Unmodelled('pandas.concat other than side by side')
+        rows = None
+        for a in arrays:
+            if not (isinstance(a, Rec) and isinstance(a.f.get('rows'), list)):
+                raise Unmodelled('pandas.concat of something that is not a range array')
+            if rows is None:
+                rows = [list(r) for r in a.f['rows']]
+            else:
+                if len(rows) != len(a.f['rows']):
+                    raise Unmodelled('pandas.concat of arrays with different row counts')
+                rows = [r + list(r2) for r, r2 in zip(rows, a.f['rows'])]
+        return _Frame(interp, rows or [])
+    concat.wants_interp = True
+    return {'ext:pandas.concat': concat}
+
+
 def _nodate(*a, **k):
     raise ExcRaised(Ref('builtin:ValueError'))
 
@@ -101,6 +151,7 @@ class Workbook:
         self.models = dict(V.numpy_models())
         self.models.update(array_models())
         self.models.update(V.openpyxl_models())
+        self.models.update(pandas_models())
         self.models['ext:dateutil.parser.parse'] = _nodate
         self.models.update(models or {})
         mm = ctx.mod('model')
